@@ -47,7 +47,7 @@ NAMES = ["m1", "m2", "d", "ip", "q1"]
 # ------------------------------------------------------------------ construction
 @st.composite
 def ctor_spec(draw):
-    n = draw(st.integers(0, 6))
+    n = draw(st.integers(0, 6)) if draw(st.integers(0, 5)) else draw(st.integers(17, 40))
     spec = {"n": n, "index": draw(st.sampled_from(["name", "name", "key"])),
             "names": [draw(st.sampled_from(NAMES)) for _ in range(n)],
             "a": [draw(st.sampled_from([0.0, 1.5, -2.0, 3.25, 1e3, float("nan")])) for _ in range(n)],
@@ -74,7 +74,7 @@ def build(spec):
     if spec["scalars"]:
         data["energy"] = 7.5
         data["label"] = "hello"
-        data["vec"] = np.array([1.0, 2.0, 3.0, 4.0, 5.0, 6.0, 7.0, 8.0, 9.0])   # a non-column array (length never n)
+        data["vec"] = np.arange(9.0 if n != 9 else 10.0)   # a non-column array (its length is never n)
     return Table(data, col_names=cols, index=idx)
 
 
@@ -274,7 +274,7 @@ def exec_script(ctx, case):
                     desc = f"T{src_i}[{s['col']!r}] = <{s['val']}>"
                     t[s["col"]] = val
                 else:
-                    if s["col"] in t._data or n == 9:
+                    if s["col"] in t._data or n in (9, 10):
                         rendered["steps"].append(desc + " skipped")
                         continue
                     desc = f"T{src_i}[{s['col']!r}] = <new column>"
